@@ -2,10 +2,16 @@
 
 Proved (unit `unit_intervals.formula`): the gaussian unit-level interval formula and floors on the real
 get_unit_prediction_intervals with GaussianModel.fit under contract.
-Bounded (NOT counted as proved): the recursive fit cascade and the matching loop of the aggregate function --
-frames whose rows live at different aggregation levels with null keys, positional `iloc`/indicator tricks -- are
-outside the frame theory; the real functions are compared with an oracle written from the statement over an
-enumerated small scope (bounded/c15_gaussian.py)."""
+Proved (units `fit_cascade_step.<aggregate>`): ONE step of the real GaussianModel.fit (with _get_n_units_per_group and
+pandas_utils.semi_join inlined, _fit and the recursive self.fit under the function's own contract): threshold
+T = min(10, #calibration units); a single per-group fit iff every group that has calibration or outstanding units holds
+>= T calibration units; otherwise the parent-level call gets all the data and the same-level call gets EXACTLY the
+calibration / reporting / outstanding rows of the groups with >= T calibration units.  By induction over the (finite)
+recursion this is the selection rule of the statement.
+Bounded (NOT counted as proved): the matching loop of the aggregate function (frames whose rows live at different
+aggregation levels with null keys, positional `iloc`/indicator tricks) and the concatenation of the models of the
+recursive calls; the real functions are compared with an oracle written from the statement over an enumerated small
+scope (bounded/c15_gaussian.py)."""
 import z3
 
 import contracts.C03 as C03
@@ -112,3 +118,94 @@ def _consts(t):
         elif z3.is_quantifier(x):
             stack.append(x.body())
     return out
+
+
+# ---- one step of the fit cascade, with the function's own contract at the recursive calls ---------------------
+from contracts.common import AGGS  # noqa: E402
+
+
+def _cascade(aggname, keys):
+    @unit("C15", f"fit_cascade_step.{aggname}", fns=[f"{GM}.fit", f"{GM}._get_n_units_per_group", "elexmodel.utils.pandas_utils.semi_join"])
+    def step(h):
+        """GaussianModel.fit at a two-level aggregate: T = min(10, all calibration units); if every group (also groups
+        that only have outstanding units) holds >= T calibration units ONE per-group fit on all calibration data;
+        otherwise (a) the same function on the parent level for ALL calibration data and (b) the same function at this
+        level on exactly the calibration / reporting / outstanding rows of the groups with >= T calibration units."""
+        t = Three(h, "turnout", extra=("lower_bounds", "upper_bounds"))
+        u = t.root.u
+        inCal = z3.Function("inCal", z3.IntSort(), z3.BoolSort())(u)
+        h.syms["inCal"] = z3.Function("inCal", z3.IntSort(), z3.BoolSort())
+        h.forall_rows(t.root, z3.Implies(inCal, t.R))
+        cal = frames.base_frame(t.root, inCal, {k: c.t for k, c in t.rep.cols.items()}, "geographic_unit_fips")
+        h.requires("some_calibration_unit", cal.axis.n >= 1)
+        calls = []
+
+        def own_contract(interp, self_, conformalization_data, reporting_units, nonreporting_units, estimand, aggregate=None, alpha=None, reweight=False, top_level=True):
+            calls.append(dict(kind="fit", conf=conformalization_data, rep=reporting_units, non=nonreporting_units, aggregate=list(aggregate), top_level=top_level, alpha=alpha))
+            return frames.base_frame(frames.keyspace(["<model>"], {"<model>": z3.StringSort()}), z3.BoolVal(True), {}, None)
+
+        def _fit_contract(interp, self_, conformalization_data, estimand, aggregate, alpha):
+            calls.append(dict(kind="_fit", conf=conformalization_data, aggregate=list(aggregate), alpha=alpha))
+            return frames.base_frame(frames.keyspace(["<model>"], {"<model>": z3.StringSort()}), z3.BoolVal(True), {}, None)
+
+        h.contracts[f"{GM}.fit"] = own_contract
+        h.contracts[f"{GM}._fit"] = _fit_contract
+        gm = h.obj(GM, save_conformalization=False, election_id="e", office="S", geographic_unit_type="county", winsorize=False, beta=1, seed=4191)
+        clo = h.load(f"{GM}.fit")
+        alpha = h.real("alpha")
+        from pyvc.values import SymRaise
+
+        try:
+            h.interp.call_closure(clo, [gm, cal, t.rep, t.nonrep, "turnout"], dict(aggregate=list(keys), alpha=alpha, reweight=False, top_level=True))
+        except SymRaise as e:
+            return h.fail("no_raise", f"raised {e.exc}")
+        from pyvc import sums
+
+        gs = frames.keyspace(list(keys), {k: z3.StringSort() for k in keys})
+        kv = [gs.keyvars[k] for k in keys]
+        own = [t.keys[k] for k in keys]  # the generic unit's own group
+        ncal = cal.axis.n
+        T = z3.If(ncal < 10, ncal, z3.IntVal(10))
+        facts = z3.And(*t.root.facts())
+        # spec side: number of calibration units of the generic group g (a function of g)
+        n_g, d_ng = sums.formal_sum_dom(h.ctx, t.root, z3.And(inCal, *[t.keys[k] == gs.keyvars[k] for k in keys]), z3.IntVal(1))
+        at = lambda term, point: z3.substitute(term, *list(zip(kv, point)))  # noqa: E731
+        kinds = [c["kind"] for c in calls]
+        mins = [e for e in h.ctx.__dict__.get("_extrema", []) if hasattr(e["root"], "keyvars")]
+        rp = lambda ev: {"target": "verif_replays:gaussian_cascade_replay", "args": [keys[-1]], "check": "result['exc'] is None and result['ok']"}  # noqa: E731
+        h.ensures("one_minimum_over_the_group_counts", len(mins) == 1)
+        if len(mins) != 1:
+            return
+        mn = mins[0]
+        in_group = z3.And(z3.Or(inCal, t.N), *[a == b for a, b in zip(own, kv)])  # the generic unit is a calibration/outstanding unit of g
+        if kinds == ["_fit"]:
+            h.ensures("single_fit.uses_all_calibration_data_at_this_level", calls[0]["conf"] is cal and calls[0]["aggregate"] == list(keys))
+            h.ensures("single_fit.only_if_every_group_is_large_enough", z3.Implies(z3.And(facts, in_group), n_g >= T), replay=rp)
+        else:
+            h.ensures("fallback.two_recursive_calls", kinds == ["fit", "fit"], why=str(kinds))
+            if kinds != ["fit", "fit"]:
+                return
+            small, large = calls
+            h.ensures("fallback.parent_level_call_gets_all_the_data", small["conf"] is cal and small["aggregate"] == list(keys[:-1]) and small["rep"] is t.rep and small["non"] is t.nonrep and small["top_level"] is False)
+            h.ensures("fallback.this_level_call_keeps_the_level", large["aggregate"] == list(keys) and large["top_level"] is False)
+            # ghost: the definitions of the group-presence predicates and of the minimum at the unit's own group,
+            # and a calibration row of that group when its count is not 0
+            ws = sums.sum_nonzero_witness(h.ctx, d_ng, list(zip(kv, own)))
+            frames.presence_instances(h.ctx, t.root, dict(zip(keys, own)), rows=[ws])
+            grp_ok = at(n_g, own) >= T
+            for nm, fr, dom in (("calibration", large["conf"], inCal), ("outstanding", large["non"], t.N), ("reporting", large["rep"], t.R)):
+                h.ensures(f"fallback.large_group_{nm}_rows", z3.Implies(facts, fr.axis.present() == z3.And(dom, grp_ok)), replay=rp)
+            # it happens only if some group with calibration or outstanding units is too small: the group attaining the minimum
+            wit = mn["witness"]
+            ws2 = sums.sum_nonzero_witness(h.ctx, d_ng, list(zip(kv, wit)))
+            pw = frames.presence_instances(h.ctx, t.root, dict(zip(keys, wit)), rows=[ws2])
+            some_row = z3.Or(*[z3.And(r >= 0, r < t.root.n, z3.substitute(in_group, (t.root.u, r), *list(zip(kv, wit)))) for r in pw])
+            h.ensures("fallback.only_if_some_group_is_too_small", z3.And(some_row, at(n_g, wit) < T), replay=rp)
+        h.ensures("no_s3_write_without_the_option", not [c for c in h.interp.call_log if "s3" in str(c[0]).lower()])
+
+    return step
+
+
+for _n, _k in AGGS.items():
+    if _n != "state":
+        _cascade(_n, _k)
